@@ -22,10 +22,17 @@ RULE = ("kind 'sample': exhaustive for one topology (all 1-2 key subsets of {0,1
         "setters on a loader built with another configuration (fresh, or already sampled once), "
         "JointDegreeDistribution.load_joint_degree, and the empirical loader (constructor, empirical_jds setter + "
         "create_jdd, factory) whose weights are the floats count/n of an observed sequence, with N equal to the number of "
-        "observed vertices in half of those cases; motif size vectors are unsorted and non-contiguous; malformed: too few motif sizes "
+        "observed vertices in half of those cases, and the COVER loader (constructor, factory, cover setter + create_jdd + "
+        "motif_sizes setter on a loader built from another cover; 200 random covers in quick with 1-3 clique sizes, mostly "
+        "with GAPS between the sizes ({2,4}, {3,5}, {2,3,5}, {2,9} ...), ids from 0 or 1; keys / weights / sizes of the case "
+        "are the C08 specification applied to the cover: occurring sizes ascending, one column per size, first-occurrence key "
+        "order, weights count/n); KEPT SEQUENCES: in 40% of the random cases, a quarter of the exhaustive family and the "
+        "cover corpus entries the caller keeps every sampled sequence, samples again (second call on the same loader where "
+        "the case has one, then N+3 draws from a second loader of another width) and reads the kept sequences again; each is "
+        "judged a second time by c05_check with the call / randrange log of the call that produced it; motif size vectors are unsorted and non-contiguous; malformed: too few motif sizes "
         "(IndexError), a zero size (ZeroDivisionError), N = 0, ragged keys. kind 'choices': weights/r dyadic, r on and off the "
         "interval boundaries. Compared: the logged choices call (population, weights, k), every randrange call (range and "
-        "answer position), the returned sequence incl. Python type tags, acceptance by JointDegreeEmpirical, exception class. "
+        "answer position), the returned sequence incl. Python type tags (kept ones: unchanged when read again), acceptance by JointDegreeEmpirical, exception class. "
         "Non-trivial = a valid sample case in which at least one stub was added; distinct by full case")
 EXHAUSTIVE = {"quick": True, "thorough": True}
 EXPLANATION = ("general theorems (all sizes incl. 1, all N, all oracle answers) in Props/C05.v; correspondence exhaustive over "
@@ -35,6 +42,8 @@ ASSUMPTIONS = ["random.choices(population, weights, k=N) draws keys in proportio
                "bisect rule (modelled in Sample.choices_rule, interval lemma proved, rule compared with CPython on every run)",
                "random.random() is uniform on [0,1) and draws are independent; random.randrange(0,N) is uniform on 0..N-1"]
 TRUSTED = ["CPython random.choices / randrange (selection rule modelled and compared, uniformity trusted)",
+           "cover construction path: keys / weights / sizes are derived from the cover by harness code (cover_spec, the C08 "
+           "specification); the loader is tied to it on every case by the logged choices call and the jdd / motif_sizes it exposes",
            "a random.shuffle during sampling is answered by a reversal and logged (the run is then judged by c05_check on "
            "the output and the missing choices call, instead of ending as an oracle-protocol error)",
            "hashability / tuple-ness of the returned entries is observed by the harness (type tags, JointDegreeEmpirical "
@@ -75,6 +84,15 @@ def mk(keys, weights, sizes, N, draws, rs):
             "N": N, "draws": draws, "rs": rs}
 
 
+def _corpus_cover(cover, N, draws, rs, path):
+    sizes, keys, wts = cover_spec(cover)
+    c = mk(keys, [Fraction(w) for w in wts], sizes, N, [d % len(keys) for d in draws], rs)
+    c.update(path=path, cover=cover, keep=True)
+    if path == "cover-setter":
+        c["cover0"] = [[0, 1, 2], [2, 3]]
+    return c
+
+
 def corpus():
     out = [
         # DESIGN section 3 replay: jdd {(1,0):.5,(2,1):.5}, sizes [2,3], N=5; seed-1 outcome patched entry 3
@@ -89,6 +107,14 @@ def corpus():
         mk([[10**20 + 7]], [Fraction(1, 2)], [17], 2, [0, 0], [1, 0] * 8),
         mk([[1, 1]], [Fraction(1)], [2], 3, [0, 0, 0], [1]),          # too few sizes -> IndexError
         mk([[1, 1]], [Fraction(1)], [2, 0], 3, [0, 0, 0], [1]),       # zero size -> ZeroDivisionError
+        # kept sequences read again after a second call on the same loader and a call on a second loader (C05-r7-3)
+        dict(mk([[1, 0], [2, 1]], [Fraction(1, 2), Fraction(1, 2)], [2, 3], 5, [0, 1, 1, 1, 0], [3, 0, 0]),
+             draws2=[1, 1, 0, 0, 1], rs2=[4, 2, 2, 0, 1], keep=True),
+        dict(mk([[1], [0]], [Fraction(1, 4), Fraction(3, 4)], [3], 2, [0, 1], [0, 0]), keep=True, path="factory-manual"),
+        # the sampler behind the cover loader, clique sizes with a gap: {2,4}, {3,5}, {2,3,5} (C05-r7-2)
+        _corpus_cover([[0, 1], [1, 2], [0, 1, 2, 3], [3, 4]], 5, [0, 1, 2, 1, 0], [1, 4, 0, 2, 3, 3], "cover"),
+        _corpus_cover([[1, 2, 3], [3, 4, 5, 1, 2], [2, 4, 5]], 3, [1, 0, 1], [2, 0, 1, 1, 0, 2, 2, 1], "factory-cover"),
+        _corpus_cover([[0, 1], [1, 2, 3], [0, 2, 3, 4, 5], [4, 5]], 4, [0, 2, 1, 1], [3, 1, 0, 2, 2, 1, 0, 3, 3, 0], "cover-setter"),
         {"kind": "choices", "weights": [[1, 4], [1, 2], [1, 4]], "r": [3, 4]},
         {"kind": "choices", "weights": [[1, 4], [1, 2], [1, 4]], "r": [1, 4]},
         {"kind": "choices", "weights": [[0, 1], [0, 1]], "r": [1, 4]},
@@ -197,6 +223,66 @@ def _with_path(rng, c, path=None):
     return c
 
 
+# EVERY loader class that feeds the sampler (lesson 45): the cover loader derives BOTH the distribution and the motif sizes
+# from a clique cover.  The case carries the cover; keys / weights / sizes are what the loader's specification (C08) says
+# about it: sizes = the occurring clique sizes ascending, row v / column j = number of cover cliques of size sizes[j]
+# through v, keys in order of first occurrence over the vertices in id order, weights count / n.  compare() ties the
+# loader to that derivation on every case (logged choices call, jdd_as_configured, sizes_kept).
+COVER_PATHS = ["cover", "factory-cover", "cover-setter"]
+COVER_MENUS = [[2, 4], [3, 5], [2, 3, 5], [2, 5], [1, 3], [2, 4, 6], [3, 6], [1, 4], [2, 4, 5], [2, 9], [3, 8, 10],   # gaps
+               [2, 3], [2, 3, 4], [3], [2], [1, 2]]
+
+
+def cover_spec(cover):
+    """(sizes, keys, float weights) of the distribution the cover loader's specification derives from `cover`"""
+    sizes = sorted({len(c) for c in cover})
+    ids = sorted({v for c in cover for v in c})
+    rows = {v: [0] * len(sizes) for v in ids}
+    for c in cover:
+        for v in c:
+            rows[v][sizes.index(len(c))] += 1
+    keys, counts = [], []
+    for v in ids:
+        if rows[v] in keys:
+            counts[keys.index(rows[v])] += 1
+        else:
+            keys.append(rows[v])
+            counts.append(1)
+    return sizes, keys, [n / len(ids) for n in counts]
+
+
+def _cover_for(rng):
+    from harness.props import c08
+    while True:
+        menu = rng.choice(COVER_MENUS[:11] if rng.random() < 0.7 else COVER_MENUS)
+        n = rng.randint(max(menu), max(menu) + 6)
+        cover = [rng.sample(range(n), rng.choice(menu)) for _ in range(rng.randint(1, 6))]
+        cover += [rng.sample(range(n), s) for s in menu if rng.random() < 0.8]       # most sizes of the menu do occur
+        rng.shuffle(cover)
+        cover = c08._compress(cover, rng.randint(0, 1))
+        if c08.is_valid(cover):
+            return cover
+
+
+def _cover_case(rng, path=None):
+    cover = _cover_for(rng)
+    sizes, keys, wts = cover_spec(cover)
+    N = rng.randint(1, 12)
+    draws = [rng.randrange(len(keys)) for _ in range(N)]
+    rs = [rng.randrange(N) for _ in range(sum(sizes))]
+    c = mk(keys, [Fraction(w) for w in wts], sizes, N, draws, rs)
+    c["path"] = path or rng.choice(COVER_PATHS)
+    c["cover"] = cover
+    if c["path"] == "cover-setter":
+        c["cover0"] = _cover_for(rng)
+    if rng.random() < 0.35:
+        c["draws2"] = [rng.randrange(len(keys)) for _ in range(N)]
+        c["rs2"] = [rng.randrange(N) for _ in range(sum(sizes))]
+    if rng.random() < 0.4:
+        c["keep"] = True
+    return c
+
+
 def _random_choices(rng):
     n = rng.randint(1, 7)
     mode = rng.randint(0, 2)
@@ -222,14 +308,19 @@ def generate(rng, tier):
     for k, c in enumerate(_exhaustive(tier)):
         if k % 3:
             c["path"] = ["setters", "factory-manual", "setters-used"][(k // 3) % 3]
+        if k % 4 == 1:
+            c["keep"] = True
         yield c
     n = 800 if tier == "quick" else 8000
     for _ in range(n):
-        yield _with_path(rng, _random_sample(rng, big=(tier != "quick")))
+        yield _keeping(rng, _with_path(rng, _random_sample(rng, big=(tier != "quick"))))
+    # the sampler behind the COVER loader (sizes and distribution both derived from a clique cover; clique sizes with gaps)
     for i in range(n // 4):
-        yield _with_path(rng, _random_sample(rng, huge=True, wide=(i % 4 == 0)))
+        yield _cover_case(rng, COVER_PATHS[i % 3] if i < 30 else None)
+    for i in range(n // 4):
+        yield _keeping(rng, _with_path(rng, _random_sample(rng, huge=True, wide=(i % 4 == 0))))
     for _ in range(n // 8):
-        yield _with_path(rng, _random_sample(rng, wide=True))
+        yield _keeping(rng, _with_path(rng, _random_sample(rng, wide=True)))
     # malformed
     for _ in range(150 if tier == "quick" else 1000):
         c = _with_path(rng, _random_sample(rng), rng.choice(PATHS[:4]))
@@ -252,6 +343,14 @@ def generate(rng, tier):
         yield c
     for _ in range(400 if tier == "quick" else 4000):
         yield _random_choices(rng)
+
+
+def _keeping(rng, c):
+    """a share of the cases KEEP every sampled sequence and read it again after the later calls (a second sample on the
+    same loader where the case has one, then a sample on a second loader of another width)"""
+    if rng.random() < 0.4:
+        c["keep"] = True
+    return c
 
 
 class _Cap:
@@ -299,7 +398,32 @@ class _Script(oracles.Script):
         return [population[i % len(population)] for i in idxs]
 
 
-def _one_call(loader, case, draws, rs):
+def _read_out(out):
+    """what a returned sequence holds NOW (also used to re-observe a sequence kept from an earlier call)"""
+    try:
+        rows = [[int(x) for x in e] for e in out]
+        tags = [1 if (type(e) is tuple and all(type(x) is int for x in e)) else 0 for e in out]
+    except Exception:  # noqa: BLE001
+        rows, tags = [[-1]], [0]
+    return {"out_type": type(out).__name__, "out": rows, "tags": tags}
+
+
+def _decoy_sample(T, N):
+    """a sample drawn from a SECOND loader (other width, other sizes, other N) with the real random module (state
+    restored): what a caller preparing two networks does before using the first sequence"""
+    import random
+    from gcmpy.joint_degree.joint_degree_loaders.joint_degree_manual import JointDegreeManual
+    from gcmpy.names.joint_degree_names import JointDegreeNames as NM
+    state = random.getstate()
+    try:
+        other = JointDegreeManual({NM.JDD: {(1,) * (T + 1): 0.5, (3,) * (T + 1): 0.25, (0,) * (T + 1): 0.25},
+                                   NM.MOTIF_SIZES: list(range(2, T + 3))})
+        return other, other.sample_jds_from_jdd(N + 3)
+    finally:
+        random.setstate(state)
+
+
+def _one_call(loader, case, draws, rs, kept=None):
     from gcmpy.joint_degree.joint_degree_loaders.joint_degree_empirical import JointDegreeEmpirical
     from gcmpy.names.joint_degree_names import JointDegreeNames
     script = _Script([("choices", list(draws))] + [("randrange", r) for r in rs], default=_Cap())
@@ -314,9 +438,9 @@ def _one_call(loader, case, draws, rs):
     else:
         obs["call"] = [[], [], 0, []]
     obs["rlog"] = rlog
-    obs["out_type"] = type(out).__name__
-    obs["out"] = [[int(x) for x in e] for e in out]
-    obs["tags"] = [1 if (type(e) is tuple and all(type(x) is int for x in e)) else 0 for e in out]
+    obs.update(_read_out(out))
+    if kept is not None:
+        kept.append(out)
     usable = "ok"
     try:
         emp = JointDegreeEmpirical({JointDegreeNames.MOTIF_SIZES: list(case["sizes"]), JointDegreeNames.JDS: out})
@@ -357,6 +481,20 @@ def _make_loader(case, jdd):
         loader.motif_sizes = sizes
         loader.jdd = jdd
         return loader
+    if path in COVER_PATHS:
+        import copy
+        from gcmpy.joint_degree.joint_degree_loaders.joint_degree_cover import JointDegreeCover
+        cover = copy.deepcopy(case["cover"])
+        if path == "cover":
+            return JointDegreeCover({NM.COVER: cover})
+        if path == "factory-cover":
+            return JointDegreeDistribution.load_joint_degree({NM.JOINT_DEGREE_TYPE: JointDegreeType.COVER.value, NM.COVER: cover})
+        # a loader built from another cover; the public cover setter, re-derivation, and the sizes of the new cover
+        loader = JointDegreeCover({NM.COVER: copy.deepcopy(case["cover0"])})
+        loader.cover = cover
+        loader.create_jdd()
+        loader.motif_sizes = sizes
+        return loader
     if path == "empirical":
         return JointDegreeEmpirical({NM.MOTIF_SIZES: sizes, NM.JDS: observed})
     if path == "factory-empirical":
@@ -377,13 +515,21 @@ def _impl_sample(case):
         jdd[tuple(k)] = float(fr(w))
     loader = _make_loader(case, jdd)
     before = list(loader.jdd.items())
-    obs = _one_call(loader, case, case["draws"], case["rs"])
+    kept = [] if case.get("keep") else None
+    obs = _one_call(loader, case, case["draws"], case["rs"], kept)
     obs["sizes_kept"] = list(loader.motif_sizes) == list(case["sizes"])
     obs["jdd_as_configured"] = before == list(jdd.items())
     obs["jdd_unchanged"] = list(loader.jdd.items()) == before
     if "draws2" in case:        # a second call on the SAME loader object with other oracle answers
-        obs["second"] = _one_call(loader, case, case["draws2"], case["rs2"])
+        obs["second"] = _one_call(loader, case, case["draws2"], case["rs2"], kept)
         obs["jdd_unchanged"] = obs["jdd_unchanged"] and list(loader.jdd.items()) == before
+    if kept is not None:
+        # the caller still holds every sampled sequence: after the later call(s) on the same loader and a sample drawn
+        # from a second loader, each of them is read again (sampled sequences must not alias each other)
+        decoy = _decoy_sample(max(1, len(case["sizes"])), case["N"])
+        for o, out in zip([obs, obs.get("second")], kept):
+            o["later"] = _read_out(out)
+        del decoy
     return obs
 
 
@@ -468,6 +614,9 @@ def _cmp_one(case, io, mo, pre):
         return pre + f"type tags: {io['out_type']} of {io['tags']}"
     if io["usable"] != "ok":
         return pre + f"JointDegreeEmpirical rejects the result: {io['usable']}"
+    lt = io.get("later")
+    if lt is not None and (lt["out"] != io["out"] or lt["tags"] != io["tags"] or lt["out_type"] != io["out_type"]):
+        return pre + f"the returned sequence changed after later sampling calls: was {io['out']}, now {lt['out']}"
     return None
 
 
@@ -478,7 +627,20 @@ def check_calls(case, io):
     if "second" in io:
         i2 = io["second"]
         calls.append(("c05_check", [case["keys"], case["weights"], case["sizes"], case["N"], i2["call"], i2["rlog"], i2["out"]]))
+    # kept sequences read again after the later calls: the same checker, the same logged call and randrange answers
+    for o in _observations(io):
+        if o.get("later") is not None:
+            calls.append(("c05_check", [case["keys"], case["weights"], case["sizes"], case["N"], o["call"], o["rlog"],
+                                        _enc_rows(o["later"]["out"])]))
     return calls
+
+
+def _observations(io):
+    return [io] + ([io["second"]] if "second" in io else [])
+
+
+def _enc_rows(rows):
+    return [list(r) for r in rows]
 
 
 def check_verdict(case, io, raws):
@@ -493,6 +655,14 @@ def check_verdict(case, io, raws):
     obs = [("", io, raws[0])]
     if "second" in io and len(raws) > 1:
         obs.append(("second call on the same loader: ", io["second"], raws[1]))
+    n_first = len(obs)
+    later = [o for o in _observations(io) if o.get("later") is not None]
+    for k, o in enumerate(later):
+        if n_first + k < len(raws):
+            which = "first" if o is io else "second"
+            obs.append((f"the sequence returned by the {which} call, read again after the later sampling calls (same loader / a "
+                        f"second loader) -- it now holds {len(o['later']['out'])} entries: ",
+                        dict(o, tags=o["later"]["tags"], usable="ok"), raws[n_first + k]))
     for pre, o, v in obs:
         if v[0] != 1:
             bad = [CLAUSES[i] for i, b in enumerate(v[1:]) if b != 1]
@@ -530,7 +700,7 @@ def shrink(case):
             c["rs"] = [min(r, N - 2) for r in case["rs"]]
             yield c
     T = len(case["sizes"])
-    if T > 1 and all(len(k) == T for k in case["keys"]):
+    if T > 1 and all(len(k) == T for k in case["keys"]) and "cover" not in case:
         for i in range(T):
             keys = [k[:i] + k[i + 1:] for k in case["keys"]]
             if len({tuple(k) for k in keys}) == len(keys):
@@ -549,6 +719,10 @@ def describe(case, io):
         return {"choices weights": [str(fr(w)) for w in case["weights"]], "r": str(fr(case["r"])), "impl": io}
     d = {k: case[k] for k in ("keys", "sizes", "N", "draws")}
     d["construction_path"] = case.get("path", "params")
+    if "cover" in case:
+        d["cover"] = case["cover"]
+    if case.get("keep"):
+        d["kept_sequences_read_again_after_later_calls"] = True
     d["rs"] = case["rs"][:8]
     d["impl"] = io if core.is_exc(io) else {"out": io["out"][:8], "randrange": io["rlog"][:8]}
     return d
